@@ -18,7 +18,7 @@ pub fn spec() -> PropSpec {
     PropSpec {
         id: "C16",
         level: "exploration",
-        rule: "sets: six quantities (solutions<=100, predicate-data slots<=100, words per slot<=10000, total mutations<=1000, key words<=1000, value words<=10000) each from a size menu (quick: full product over {1,L,L+1} plus every single-quantity sweep over {0,L-1} against all {1,L} backgrounds; thorough: full product over {0,1,L-1,L,L+1}) x mutations spread over {1,2,100} solutions x duplicate mode {none, same key twice in one solution, same key in two solutions of one contract (two predicates), same key in two solutions of different contracts, same key in two solutions with the same predicate address} x carrier position {first,last}; one carrier element holds the big size, everything else is minimal. contracts: predicates {0,1,99,100,101} x carrier nodes {0,1,999,1000,1001} x edges {same menu} (plus counts 65536, 66536, 65536+999/1000 that are small again modulo 2^16) x carrier position x node shape {leaves, chained} x signature {valid, recovery id flipped, id 4, id 255, zeroed, all 0xFF, valid for another contract, valid by another key}. computed sets: 1..2 solutions (same / different contract) each with declared mutations in {[],[9->4],[8->5],both} and computed mutations (data-output leaves) in {none,[9->3],[8->6],both in one leaf,both over two leaves, [9->3,9->7] in one leaf, over two leaves, [9->3] in each of two leaves}, through check_and_compute_solution_set_two_pass and the one-pass check_and_compute_solution_set. Oracle: accept <=> every quantity within its documented limit (restated literally), signed contract additionally <=> essential_sign::contract::recover succeeds; a returned computed set passes check_set and has no solution with two mutations of one key. non-trivial = some quantity at L or L+1 or a duplicate key (sets/contracts), or the computing check returned Ok with at least one computed mutation; distinct by case tuple",
+        rule: "sets: six quantities (solutions<=100, predicate-data slots<=100, words per slot<=10000, total mutations<=1000, key words<=1000, value words<=10000) each from a size menu (quick: full product over {1,L,L+1} plus every single-quantity sweep over {0,L-1} against all {1,L} backgrounds; thorough: full product over {0,1,L-1,L,L+1}) x mutations spread over {1,2,100} solutions x duplicate mode {none, same key twice in one solution, same key in two solutions of one contract (two predicates), same key in two solutions of different contracts, same key in two solutions with the same predicate address, same key once in one solution and twice with the agreeing value in another solution of the contract} x carrier position {first,last}; one carrier element holds the big size; the other slots / keys / values are short but lie lexicographically on both sides of the carrier's. contracts: predicates {0,1,99,100,101} x carrier nodes {0,1,999,1000,1001} x edges {same menu} (plus counts 65536, 66536, 65536+999/1000 that are small again modulo 2^16) x carrier position x node shape {leaves, chained} x signature {valid, recovery id flipped, id 4, id 255, zeroed, all 0xFF, valid for another contract, valid by another key}. computed sets: 1..2 solutions (same / different contract) each with declared mutations in {[],[9->4],[8->5],both} and computed mutations (data-output leaves) in {none,[9->3],[8->6],both in one leaf,both over two leaves, [9->3,9->7] in one leaf, over two leaves, [9->3] in each of two leaves}, through check_and_compute_solution_set_two_pass and the one-pass check_and_compute_solution_set. Oracle: accept <=> every quantity within its documented limit (restated literally), signed contract additionally <=> a key is recoverable with the secp256k1 crate alone (recovery id in 0..=3, (r,s) a valid compact signature, recover_ecdsa over the contract's content address succeeds); a returned computed set passes check_set and has no solution with two mutations of one key. non-trivial = some quantity at L or L+1 or a duplicate key (sets/contracts), or the computing check returned Ok with at least one computed mutation; distinct by case tuple",
         assumptions: &[
             "sets where two different solutions of one contract mutate the same key satisfy every clause of the statement but are owned by property C04: either verdict is accepted for them (masked)",
             "signing keys come from a fixed pool of two",
@@ -62,7 +62,8 @@ src_and_code! { BUILD_SET_SRC;
             return SolutionSet { solutions: sols };
         }
         let carrier = if pos == 1 { n - 1 } else { 0 };
-        let mut pd: Vec<Vec<Word>> = vec![vec![]; q[1]];
+        // non-carrier slots: empty, lexicographically above and below the carrier slot's [7, 7, ..]
+        let mut pd: Vec<Vec<Word>> = (0..q[1]).map(|i| match i % 3 { 0 => vec![], 1 => vec![9], _ => vec![0] }).collect();
         if q[1] > 0 {
             let slot = if pos == 1 { q[1] - 1 } else { 0 };
             pd[slot] = vec![7; q[2]];
@@ -75,7 +76,9 @@ src_and_code! { BUILD_SET_SRC;
         for (h, &si) in holders.iter().enumerate() {
             let cnt = nmut / d + usize::from(h < nmut % d);
             for _ in 0..cnt {
-                sols[si].state_mutations.push(Mutation { key: vec![g], value: vec![g] });
+                // keys and values on both sides (lexicographically) of the carrier's [-7, ..] / [5, ..]
+                let w = if g % 2 == 0 { g } else { -g - 100 };
+                sols[si].state_mutations.push(Mutation { key: vec![w], value: vec![w] });
                 g += 1;
             }
         }
@@ -98,6 +101,13 @@ src_and_code! { BUILD_SET_SRC;
             }
             if dup == 4 {
                 sols[other].predicate_to_solve = sols[carrier].predicate_to_solve.clone();
+            }
+            if dup == 5 && olen >= 2 {
+                // the other solution AGREES with the carrier on the slot, and writes it twice
+                let value = sols[carrier].state_mutations[mi].value.clone();
+                let key = sols[carrier].state_mutations[mi].key.clone();
+                sols[other].state_mutations[0] = Mutation { key: key.clone(), value: value.clone() };
+                sols[other].state_mutations[olen - 1] = Mutation { key, value };
             }
         }
         SolutionSet { solutions: sols }
@@ -188,6 +198,7 @@ impl SetCase {
         match self.dup {
             0 => true,
             1 => nmut / self.dist + usize::from(nmut % self.dist > 0) >= 2,
+            5 => self.dist >= 2 && nmut / self.dist >= 2,
             _ => self.dist >= 2,
         }
     }
@@ -205,7 +216,7 @@ impl SetCase {
         m.insert("mutations_spread_over_solutions".into(), json!(self.dist));
         m.insert(
             "duplicate_key".into(),
-            json!(["none", "twice in one solution", "two solutions, one contract, two predicates", "two solutions, different contracts", "two solutions, same predicate address"][self.dup as usize % 5]),
+            json!(["none", "twice in one solution", "two solutions, one contract, two predicates", "two solutions, different contracts", "two solutions, same predicate address", "one solution once, another solution of the contract twice with the same value"][self.dup as usize % 6]),
         );
         m.insert("carrier".into(), json!(if self.pos == 1 { "last" } else { "first" }));
         Value::Object(m)
@@ -324,7 +335,7 @@ fn set_outcome(c: &SetCase) -> SetOutcome {
         if c.q[0] == 0 {
             sig = sig.feat("empty_set");
         }
-        if c.dup == 1 {
+        if c.dup == 1 || c.dup == 5 {
             sig = sig.feat("duplicate_key_in_solution");
         }
     } else {
@@ -474,7 +485,7 @@ fn set_cases(tier: Tier, mut f: impl FnMut(u64, SetCase)) {
     let mut i = 0u64;
     for q in qs {
         for dist in [1usize, 2, 100] {
-            for dup in 0..5u8 {
+            for dup in 0..6u8 {
                 for pos in 0..2u8 {
                     let c = SetCase { q, dist, dup, pos };
                     if c.feasible() {
@@ -540,6 +551,23 @@ struct ConVerdicts {
     recoverable: bool,
 }
 
+/// "A recoverable signature", restated with the secp256k1 crate alone: the recovery id is one of
+/// 0..=3, (r, s) parse as a compact signature, and a key is recovered over the contract's address.
+fn independently_recoverable(signed: &SignedContract) -> bool {
+    use secp256k1::{
+        ecdsa::{RecoverableSignature, RecoveryId},
+        Message, Secp256k1,
+    };
+    let id = signed.signature.1;
+    if id > 3 {
+        return false;
+    }
+    let Ok(rid) = RecoveryId::try_from(id as i32) else { return false };
+    let Ok(rs) = RecoverableSignature::from_compact(&signed.signature.0, rid) else { return false };
+    let ca = essential_hash::content_addr(&signed.contract);
+    Secp256k1::new().recover_ecdsa(&Message::from_digest(ca.0), &rs).is_ok()
+}
+
 fn con_verdicts(c: &ConCase) -> Result<ConVerdicts, Panic> {
     let contract = build_contract(c.q[0], c.q[1], c.q[2], c.pos, c.shape);
     let carrier = if c.q[0] > 0 { Some(if c.pos == 1 { c.q[0] - 1 } else { 0 }) } else { None };
@@ -548,7 +576,7 @@ fn con_verdicts(c: &ConCase) -> Result<ConVerdicts, Panic> {
         pred: carrier.map(|i| cpred::check(&signed.contract.predicates[i]).is_ok()),
         contract: cpred::check_contract(&signed.contract.predicates).is_ok(),
         signed: cpred::check_signed_contract(&signed).is_ok(),
-        recoverable: essential_sign::contract::recover(&signed).is_ok(),
+        recoverable: independently_recoverable(&signed),
     })
 }
 
